@@ -5,3 +5,11 @@ listed finding: a syntactic feature of the input that pins the call site AND the
 deviation agreeing with the finding's defect model.  Anything else on the same input shape is a
 new violation.
 """
+
+
+def undefined_macro_without_definitions(case, deviation):
+    """F10b: an undefined @macro in a rule for which NO macro definition is supplied (neither in the file nor through
+    extra files) is kept as a mnemonic and the rule silently does not match.  Pinned by the repository's own test
+    `test_all_patterns[lucia_test no macros]` (expects False for a rule using @any without macros), so it cannot be repaired
+    without editing that test.  Only the C17 fault cell 'undefined-macro-no-defs' is covered; any other silent miss is new."""
+    return case.get("fault") == "undefined-macro-no-defs" and deviation.get("kind") == "silent-miss"
